@@ -232,6 +232,10 @@ func (vsc *VestingSmartContract) updateConfig(
 		return "", common.NewError("update_config", err.Error())
 	}
 
+	if err = conf.validate(); err != nil {
+		return "", common.NewError("update_config", err.Error())
+	}
+
 	_, err = balances.InsertTrieNode(scConfigKey(ADDRESS), conf)
 	if err != nil {
 		return "", common.NewError("update_config", err.Error())
